@@ -166,4 +166,150 @@ theorem C04_framing_partial (boundary : Bytes) (hB : BoundaryOK boundary) (maxra
   rw [hf2, partsLoop_parts boundary hB maxram closing after hcl parts _ [] hne hparts]
   simp
 
+
+/-! ### consequences -/
+
+/-- The content a part is delivered with does not depend on the memory threshold: only the
+    representation flag `spilled` does, and it is exactly `|content| > maxrambytes`. -/
+theorem C04_content_independent_of_threshold (boundary : Bytes) (hB : BoundaryOK boundary) (m₁ m₂ : Nat)
+    (pre : List Bytes) (parts : List PartSpec) (closing after : Bytes)
+    (hpre : ∀ l ∈ pre, IsLine l ∧ strip l ≠ bndOf boundary)
+    (hne : parts ≠ []) (hparts : ∀ p ∈ parts, PartOK boundary p) (hcl : Closing closing after) :
+    (processMultipart boundary m₁ (serialize boundary pre parts closing)).map
+        (fun r => (r.1.map (fun p => (p.headers, p.content)), r.2)) =
+    (processMultipart boundary m₂ (serialize boundary pre parts closing)).map
+        (fun r => (r.1.map (fun p => (p.headers, p.content)), r.2)) := by
+  rw [C04_framing_partial boundary hB m₁ pre parts closing after hpre hne hparts hcl,
+      C04_framing_partial boundary hB m₂ pre parts closing after hpre hne hparts hcl]
+  simp [Except.map, rawOf]
+
+/-! ### the statement with the RFC hypothesis is false (finding F7) -/
+
+def isInfixB (p : Bytes) : Bytes → Bool
+  | [] => p.isEmpty
+  | b :: bs => p.isPrefixOf (b :: bs) || isInfixB p bs
+
+/-- RFC 2046: the delimiter `CRLF--boundary` does not occur in the content (the CRLF that ends the
+    part headers counts as the CRLF in front of a content that starts with `--boundary`). -/
+def RfcClean (boundary c : Bytes) : Prop := isInfixB (CRLF ++ bndOf boundary) (CRLF ++ c) = false
+
+instance (boundary c : Bytes) : Decidable (RfcClean boundary c) := by unfold RfcClean; exact inferInstance
+
+structure PartOKRfc (boundary : Bytes) (p : PartSpec) : Prop where
+  lines : ∀ l ∈ p.hdrLines, HdrLineOK l
+  hdrs : (foldHdr p.hdrLines none []).isSome = true
+  content : RfcClean boundary p.content
+
+instance {ε α : Type} [DecidableEq ε] [DecidableEq α] : DecidableEq (Except ε α) := fun a b =>
+  match a, b with
+  | .ok x, .ok y => if h : x = y then isTrue (by rw [h]) else isFalse (by intro h'; cases h'; exact h rfl)
+  | .error x, .error y => if h : x = y then isTrue (by rw [h]) else isFalse (by intro h'; cases h'; exact h rfl)
+  | .ok _, .error _ => isFalse (by intro h; cases h)
+  | .error _, .ok _ => isFalse (by intro h; cases h)
+
+/-- the full-strength statement: every content the RFC allows -/
+def C04_framing_full : Prop :=
+  ∀ (boundary : Bytes), BoundaryOK boundary → ∀ (maxram : Nat) (pre : List Bytes) (parts : List PartSpec)
+    (closing after : Bytes),
+    (∀ l ∈ pre, IsLine l ∧ strip l ≠ bndOf boundary) → parts ≠ [] →
+    (∀ p ∈ parts, PartOKRfc boundary p) → Closing closing after →
+    processMultipart boundary maxram (serialize boundary pre parts closing)
+      = .ok (parts.map (rawOf maxram), ⟨after, true⟩)
+
+/-- `Content-Disposition: form-data; name="f"` CRLF -/
+def wHdr : Bytes :=
+  [67,111,110,116,101,110,116,45,68,105,115,112,111,115,105,116,105,111,110,58,32,102,111,114,109,45,100,97,116,97,59,32,110,97,109,101,61,34,102,34,13,10]
+/-- the near-miss content `a LF --B LF b` -/
+def wContent : Bytes := [97, 10, 45, 45, 66, 10, 98]
+def wPart : PartSpec := { hdrLines := [wHdr], content := wContent }
+
+theorem boundaryOK_B : BoundaryOK [66] := ⟨by decide, ⟨[], 66, rfl, by decide⟩⟩
+
+theorem wHdr_ok : HdrLineOK wHdr :=
+  ⟨⟨wHdr.take 41, by decide, by decide⟩, by decide, by decide⟩
+
+/-- **F7**: a bare-LF near-miss delimiter line inside the content ends the part; the rest of the content
+    is taken for the headers of a further part (`noCRLF` → 400).  The RFC-strength statement is false. -/
+theorem C04_framing_full_false : ¬ C04_framing_full := by
+  intro h
+  have := h [66] boundaryOK_B 1000 [] [wPart] (CRLF ++ []) [] (by simp) (by simp)
+    (by
+      intro p hp
+      simp only [List.mem_singleton] at hp
+      subst hp
+      exact ⟨by intro l hl; simp only [wPart, List.mem_singleton] at hl; subst hl; exact wHdr_ok,
+             by decide, by decide⟩)
+    (Closing.crlf [])
+  have hv : processMultipart [66] 1000 (serialize [66] [] [wPart] (CRLF ++ [])) = .error .noColon := by decide
+  rw [hv] at this
+  cases this
+
+/-- non-vacuity of `C04_framing_partial`: a two-part body with contents full of CR / LF / dashes and a
+    near miss that is NOT delimiter-like (`--Bx`) meets every hypothesis -/
+def exPart1 : PartSpec := { hdrLines := [wHdr], content := [13, 10, 45, 45, 66, 120, 13, 10, 45, 45, 13] }
+def exPart2 : PartSpec := { hdrLines := [wHdr], content := [] }
+
+example : PartOK [66] exPart1 :=
+  ⟨by intro l hl; simp only [exPart1, List.mem_singleton] at hl; subst hl; exact wHdr_ok, by decide, by decide⟩
+example : PartOK [66] exPart2 :=
+  ⟨by intro l hl; simp only [exPart2, List.mem_singleton] at hl; subst hl; exact wHdr_ok, by decide, by decide⟩
+/-- the excluded class is real: the F7 witness content is RFC-clean but not `DelimFree` -/
+example : RfcClean [66] wContent ∧ ¬ DelimFree (bndOf [66]) wContent := by decide
+
+
+/-! ### the bridge to the real reader (C05) -/
+
+/-- **What this model assumes of `fp.readline` is what C05 proves of `SizedReader.readline`.**
+    For a request with a declared length that the connection delivers (`Enough`), no body limit and
+    no server-side failure: from every state satisfying the reader invariant, `readline(n)` (any
+    `n ≠ 0`, in particular `readline()` and `readline(1 << 16)`) succeeds, returns exactly what the
+    cursor `Src.readline` returns on the abstract state `(rest, done)`, and leaves a state whose
+    abstraction is the cursor's next state — for every buffer size and fragmentation plan. -/
+theorem C04_readline_is_cursor (cfg : Cfg) (hb : 1 ≤ cfg.bufsize) (hm : cfg.maxbytes = none)
+    (hl : cfg.length.isSome = true) (s : St) (hi : C05.Inv cfg s) (he : C05.Enough cfg s)
+    (hf : s.failAt = none) (n : Option Nat) (h0 : n ≠ some 0) :
+    ∃ s', readline cfg s n = (.ok (Src.readline ⟨C05.rest cfg s, s.done⟩).1, s') ∧
+      (⟨C05.rest cfg s', s'.done⟩ : Src) = (Src.readline ⟨C05.rest cfg s, s.done⟩).2 ∧
+      C05.Inv cfg s' ∧ C05.Enough cfg s' ∧ s'.failAt = none := by
+  obtain ⟨i1, f1, _, nf1, en1, er1, ok1⟩ := C05.readline_post cfg hb s n hi h0
+  generalize readline cfg s n = p at *
+  obtain ⟨r, s'⟩ := p
+  have hfa : s'.failAt = none := by
+    simp only [hf] at f1
+    cases h : s'.failAt with
+    | none => rfl
+    | some _ => rw [h] at f1; cases f1
+  cases r with
+  | fuel => exact absurd rfl nf1
+  | err413 =>
+    rcases er1 rfl with h | h
+    · simp [over, hm] at h
+    · simp [hf] at h
+  | ok x =>
+    obtain ⟨e1, e2, _, e4, _⟩ := ok1 x rfl
+    refine ⟨s', ?_, ?_, i1, en1 he, hfa⟩
+    · simp only [Src.readline]; rw [e1]; simp
+    · simp only [Src.readline]
+      rw [e2, e4 he hl]
+
+/-- `fp.finish()` on the reader is `Src.finish` on the abstraction. -/
+theorem C04_finish_is_cursor (cfg : Cfg) (s : St) :
+    (⟨C05.rest cfg (CpModel.Reader.finish s), (CpModel.Reader.finish s).done⟩ : Src)
+      = Src.finish ⟨C05.rest cfg s, s.done⟩ := rfl
+
+/-- a fresh reader over a connection that holds at least the declared bytes satisfies `Enough` -/
+theorem C04_init_enough (cfg : Cfg) (body : Bytes) (frag : List Nat) (L : Nat) (hl : cfg.length = some L)
+    (hlen : L ≤ body.length) : C05.Enough cfg (init body frag none) := by
+  intro L' hL'
+  rw [hl] at hL'; cases hL'
+  simpa [init] using hlen
+
+/-- **C04, nothing beyond Content-Length.**  The parser touches the connection only through reader
+    operations; whatever sequence of them it performs, the stream offset stays within the declared
+    length (C05), for every fragmentation and buffer size. -/
+theorem C04_no_overread (cfg : Cfg) (hb : 1 ≤ cfg.bufsize) (body : Bytes) (frag : List Nat)
+    (ops : List Op) (L : Nat) (hL : cfg.length = some L) :
+    (run cfg (init body frag none) ops).2.off ≤ L :=
+  C05.C05_never_overreads cfg hb body frag none ops L hL
+
 end CpProofs.C04
